@@ -70,6 +70,7 @@ namespace vf
         bool   array;
         size_t count, size, align;
         uint64_t seq;
+        size_t   req_align = 0; // alignment exactly as passed by the caller
     };
 
     class Slab
@@ -173,6 +174,7 @@ namespace vf
                                 size, align, nullptr, seq_++, true});
                 throw injected_oom(alloc_calls_);
             }
+            size_t req_align = align;
             if (align < 16)
                 align = 16;
             char* p = nullptr;
@@ -209,9 +211,9 @@ namespace vf
             }
             VF_UNPOISON(p, bytes);
             std::memset(p, 0x5a, bytes); // deterministic content of fresh upstream memory
-            out_.push_back({p, bytes, owner, array, count, size, align, seq_});
+            out_.push_back({p, bytes, owner, array, count, size, align, seq_, req_align});
             log_.push_back({array ? UpCall::alloc_array : UpCall::alloc_node, owner, count, size,
-                            align, p, seq_++, false});
+                            req_align, p, seq_++, false});
             return p;
         }
 
@@ -229,6 +231,8 @@ namespace vf
                 const char* err = nullptr;
                 if (b.array != array || b.count != count || b.size != size)
                     err = "upstream release with different kind/count/size than the allocation";
+                else if (b.req_align != align)
+                    err = "upstream release with a different alignment than the allocation";
                 else if (b.owner != owner)
                     err = "upstream release through a different allocator object";
                 if (i + 1 != out_.size())
@@ -264,7 +268,7 @@ namespace vf
         }
         void foreign_alloc(int owner, char* p, size_t bytes)
         {
-            out_.push_back({p, bytes, owner, true, bytes, 1, 16, seq_});
+            out_.push_back({p, bytes, owner, true, bytes, 1, 16, seq_, 16});
             log_.push_back({UpCall::alloc_array, owner, bytes, 1, 16, p, seq_++, false});
         }
         void foreign_dealloc(int owner, char* p, size_t bytes)
@@ -291,6 +295,17 @@ namespace vf
             last_error_ = "return of a block that is not outstanding";
         }
 
+        const SlabBlock* find_block(const void* p) const
+        {
+            for (auto& b : out_)
+                if (b.addr == p)
+                    return &b;
+            return nullptr;
+        }
+        uint64_t next_seq()
+        {
+            return seq_++;
+        }
         const std::vector<SlabBlock>& outstanding() const
         {
             return out_;
